@@ -465,8 +465,7 @@ func (e *env) exec(i int, o Op) Obs {
 		if st == nil {
 			return out
 		}
-		d := st.RawDumpRoots()
-		return e.showRoots(d)
+		return e.showRoots(st.VerifC10Roots())
 	case "copy":
 		if st == nil {
 			return out
@@ -645,4 +644,1000 @@ func diffObs(a, b Obs) string {
 		return ""
 	}
 	return walk("", a, b)
+}
+
+// ---- Coq syntax ------------------------------------------------------------------
+
+func nl(xs []string) string { return "[" + strings.Join(xs, "; ") + "]" }
+func u64s(xs []uint64) string {
+	ys := make([]string, len(xs))
+	for i, x := range xs {
+		ys[i] = fmt.Sprintf("%d", x)
+	}
+	return nl(ys)
+}
+func bstr(s string) string {
+	if s == "" {
+		return "0"
+	}
+	return s
+}
+func valCoq(v *Val) string {
+	var dl []string
+	for _, d := range v.Dlgs {
+		dl = append(dl, fmt.Sprintf("(%s, %s, %s)", d[0], d[1], d[2]))
+	}
+	return fmt.Sprintf("(mkVal %d %d %d %s %s %s %s false)", v.Id, v.Role, v.Status, bstr(v.Token), bstr(v.Stake), nl(dl), nl(v.Rest))
+}
+func sopCoq(o Op) string {
+	switch o.K {
+	case "setbalance":
+		return fmt.Sprintf("OSetBalance %d %s", o.A, bstr(o.V))
+	case "addbalance":
+		return fmt.Sprintf("OAddBalance %d %s", o.A, bstr(o.V))
+	case "setnonce":
+		return fmt.Sprintf("OSetNonce %d %d", o.A, o.B)
+	case "setcode":
+		xs := make([]uint64, len(o.Code))
+		for i, c := range o.Code {
+			xs[i] = uint64(c)
+		}
+		return fmt.Sprintf("OSetCode %d %s", o.A, u64s(xs))
+	case "setstate":
+		return fmt.Sprintf("OSetState %d %d %s", o.A, o.B, bstr(o.V))
+	case "suicide":
+		return fmt.Sprintf("OSuicide %d", o.A)
+	case "create":
+		return fmt.Sprintf("OCreate %d %s", o.A, bstr(o.V))
+	case "upddelegator":
+		return fmt.Sprintf("OUpdDelegator %d %d %s %s %s", o.A, o.B, vf.Bool(o.Neg), bstr(o.V), vf.Bool(o.Del))
+	case "createval":
+		return "OCreateVal " + valCoq(o.Val)
+	case "updateval":
+		return "OUpdateVal " + valCoq(o.Val)
+	case "removeval":
+		return fmt.Sprintf("ORemoveVal %d", o.A)
+	case "addrewards":
+		return fmt.Sprintf("OAddRewards %d %s", o.A, bstr(o.V))
+	case "setresidue":
+		return fmt.Sprintf("OSetResidue %d %s", o.A, bstr(o.V))
+	case "addwithdraw":
+		return "OAddWithdraw " + nl(o.Rec)
+	case "removewithdraws":
+		return "ORemoveWithdraws " + u64s(o.Idx)
+	case "listvals":
+		return "OListVals"
+	case "addsrec":
+		nf := "None"
+		if o.Some {
+			nf = "(Some " + bstr(o.V) + ")"
+		}
+		return fmt.Sprintf("OAddSRec %d %d %d %s", o.A, o.B, o.C, nf)
+	case "addprel":
+		return fmt.Sprintf("OAddPRel %d %d", o.A, o.B)
+	case "resetstk":
+		return "OResetStk"
+	case "finalise":
+		return "OFinalise " + vf.Bool(o.Del)
+	case "iroot":
+		return "OIRoot " + vf.Bool(o.Del)
+	}
+	panic("sopCoq " + o.K)
+}
+func mopCoq(o Op) string {
+	switch o.K {
+	case "commit":
+		return fmt.Sprintf("MCommit %d %s", o.H, vf.Bool(o.Del))
+	case "roots":
+		return fmt.Sprintf("MRoots %d", o.H)
+	case "copy":
+		return fmt.Sprintf("MCopy %d %d", o.H, o.H2)
+	case "reopen":
+		return fmt.Sprintf("MReopen %d %d", o.H, o.H2)
+	case "reader":
+		return fmt.Sprintf("MReader %d", o.H)
+	case "view":
+		return fmt.Sprintf("MView %d", o.H)
+	}
+	return fmt.Sprintf("MS %d (%s)", o.H, sopCoq(o))
+}
+
+type flags struct{ KeepDlgs, DirtyAlways bool }
+
+func universeCoq() string {
+	var ps []string
+	for _, p := range pairsU() {
+		ps = append(ps, fmt.Sprintf("(%d, %d)", p[0], p[1]))
+	}
+	return fmt.Sprintf("mkU %s %s %s %s", u64s(uAccts), u64s(uKeys), u64s(uVals), nl(ps))
+}
+
+// ---- running a history and evaluating the property on it ------------------------------
+
+const (
+	keyD1 = "a copy loses the uncommitted delegation list of an account (stateObject.deepCopy drops delegations and dirtyDlgs)"
+	keyD2 = "a copy taken between Finalise and IntermediateRoot is not marked dirty: committing the copy does not store code and storage (StateDB.Copy)"
+)
+
+type hit struct {
+	What    string   `json:"what"`
+	Detail  string   `json:"detail"`
+	History *History `json:"history"`
+}
+
+type runResult struct {
+	outs    [][]Obs
+	hits    []hit
+	skipped int // expectations not evaluated because the copy was taken inside a transaction
+	checked map[string]int
+}
+
+func flat(outs [][]Obs) ([]Obs, []int) {
+	var f []Obs
+	pos := make([]int, len(outs))
+	for i, o := range outs {
+		pos[i] = len(f)
+		f = append(f, o...)
+	}
+	return f, pos
+}
+
+func isPanic(o Obs) bool { return o.IsL && len(o.L) == 1 && !o.L[0].IsL && o.L[0].N.Sign() == 0 }
+
+// execOp runs one op; "delegate" maps to two model ops (UpdateValidator, UpdateDelegator).
+func execOp(e *env, i int, o *Op) []Obs {
+	if o.K != "delegate" {
+		return []Obs{e.exec(i, *o)}
+	}
+	st := e.hs[o.H]
+	if st == nil {
+		o.Some = false
+		return nil
+	}
+	val := st.GetValidatorByMainAddr(valAddr(o.B))
+	if val == nil {
+		o.Some = false
+		return nil
+	}
+	amt := bigOf(o.V)
+	if o.Neg {
+		amt.Neg(amt)
+	}
+	var nv *state.Validator
+	var status params.CurdFlag
+	var df *state.DelegationFrom
+	p := guard(func() { nv, df, _, status = st.UpdateDelegation(addrOf(o.A), val, amt) })
+	if p != "" {
+		nv = st.GetValidatorByMainAddr(valAddr(o.B))
+		r := valRec(nv)
+		o.Val, o.Some, o.Del = &r, true, false
+		return []Obs{ol(), panicObs}
+	}
+	if df == nil { // nothing happened
+		o.Some = false
+		return nil
+	}
+	r := valRec(nv)
+	o.Val, o.Some, o.Del = &r, true, status == params.Delete
+	return []Obs{ol(), ol()}
+}
+
+// content drops the validatorsStatModified flag (run-time state, not content) from a view.
+func content(v Obs) Obs {
+	if len(v.L) != 3 || len(v.L[1].L) != 5 {
+		return v
+	}
+	return ol(v.L[0], ol(v.L[1].L[0], v.L[1].L[1], v.L[1].L[2], v.L[1].L[3]), v.L[2])
+}
+
+func runHistory(h *History) *runResult {
+	e := newEnv()
+	res := &runResult{checked: map[string]int{}}
+	origin := map[uint64]int{0: -1}
+	lineage := func(hd uint64) copyInfo {
+		if c, ok := origin[hd]; ok && c >= 0 {
+			return e.copies[c]
+		}
+		return copyInfo{}
+	}
+	add := func(what, detail string) { res.hits = append(res.hits, hit{what, detail, h}) }
+	attribute := func(ci copyInfo, generic, detail string) {
+		switch {
+		case ci.MidTx:
+			res.skipped++
+		case ci.DirtyDlgs:
+			add(keyD1, detail)
+		case ci.PendingDirty:
+			add(keyD2, detail)
+		default:
+			add(generic, detail)
+		}
+	}
+	for i := range h.Ops {
+		o := &h.Ops[i]
+		outs := execOp(e, i, o)
+		res.outs = append(res.outs, outs)
+		switch o.K {
+		case "copy":
+			ci := e.copies[i]
+			pi := lineage(o.H)
+			ci.MidTx, ci.DirtyDlgs, ci.PendingDirty = ci.MidTx || pi.MidTx, ci.DirtyDlgs || pi.DirtyDlgs, ci.PendingDirty || pi.PendingDirty
+			e.copies[i] = ci
+			origin[o.H2] = i
+		case "reopen":
+			if _, ok := e.last[o.H]; ok {
+				origin[o.H2] = origin[o.H] // what the commit lost stays lost
+			}
+		}
+		for _, out := range outs {
+			if isPanic(out) {
+				attribute(lineage(o.H), "a call panicked", fmt.Sprintf("op %d (%s) panicked", i, o.K))
+			}
+		}
+	}
+	for _, c := range e.cold {
+		add("a committed state cannot be reopened from the disk database as it was", c)
+	}
+	f, pos := flat(res.outs)
+	get := func(i int) Obs { return f[pos[i]] }
+	// stated expectations
+	for _, a := range h.Asserts {
+		if a.I >= len(h.Ops) || a.J >= len(h.Ops) || len(res.outs[a.I]) == 0 || len(res.outs[a.J]) == 0 {
+			continue
+		}
+		x, y := get(a.I), get(a.J)
+		ci := copyInfo{}
+		if a.Copy >= 0 {
+			ci = e.copies[a.Copy]
+		}
+		res.checked[a.Kind]++
+		switch a.Kind {
+		case "eqview", "eqroots", "eqcontent":
+			if a.Kind == "eqcontent" {
+				x, y = content(x), content(y)
+			}
+			if d := diffObs(x, y); d != "" {
+				attribute(ci, a.Why, fmt.Sprintf("outputs %d and %d differ at %s", a.I, a.J, d))
+			}
+		case "eqreader":
+			// x = reader view, y = full view
+			if len(y.L) == 3 {
+				want := ol(y.L[1].L[0], y.L[1].L[2])
+				if d := diffObs(x, want); d != "" {
+					attribute(ci, a.Why, fmt.Sprintf("outputs %d and %d differ at %s", a.I, a.J, d))
+				}
+			}
+		}
+	}
+	// equal content => equal roots, over every (flush, view) pair of the history
+	type fp struct {
+		roots string
+		at    int
+	}
+	seen := map[string]fp{}
+	for i := 0; i+1 < len(h.Ops); i++ {
+		a, b := h.Ops[i], h.Ops[i+1]
+		if (a.K == "iroot" || a.K == "commit") && b.K == "view" && a.H == b.H && len(res.outs[i]) == 1 && len(res.outs[i+1]) == 1 {
+			v := get(i + 1)
+			if len(v.L) != 3 || isPanic(get(i)) {
+				continue
+			}
+			key := content(v).String()
+			r := get(i).String()
+			if p, ok := seen[key]; ok {
+				res.checked["content_roots"]++
+				if p.roots != r {
+					add("two states with equal content have different roots", fmt.Sprintf("flush at op %d and flush at op %d show the same content but roots %s vs %s", p.at, i, p.roots, r))
+				}
+			} else {
+				seen[key] = fp{r, i}
+			}
+		}
+	}
+	return res
+}
+
+// ---- generator ----------------------------------------------------------------------------
+
+type genr struct {
+	r       *vf.Rng
+	e       *env
+	h       *History
+	nextH   uint64
+	removed map[uint64]int // RemoveValidator calls on a handle since its last flush
+	origin  map[uint64]int
+	res     *vf.Result
+}
+
+func newGen(r *vf.Rng, res *vf.Result) *genr {
+	return &genr{r: r, e: newEnv(), h: &History{}, nextH: 1, removed: map[uint64]int{}, origin: map[uint64]int{0: -1}, res: res}
+}
+
+func (g *genr) do(o Op) int {
+	i := len(g.h.Ops)
+	g.h.Ops = append(g.h.Ops, o)
+	execOp(g.e, i, &g.h.Ops[i])
+	switch o.K {
+	case "iroot", "commit":
+		g.removed[o.H] = 0
+	case "copy":
+		g.removed[o.H2] = g.removed[o.H]
+		g.origin[o.H2] = i
+	case "reopen":
+		g.removed[o.H2] = 0
+		g.origin[o.H2] = g.origin[o.H]
+	}
+	g.res.Count("op_" + o.K)
+	return i
+}
+func (g *genr) expect(kind string, i, j, cp int, why string) {
+	g.h.Asserts = append(g.h.Asserts, Assert{kind, i, j, cp, why})
+}
+func (g *genr) fresh() uint64 { x := g.nextH; g.nextH++; return x }
+
+var unit = new(big.Int).Set(params.StakeUint)
+
+func (g *genr) amt() string {
+	switch g.r.Intn(12) {
+	case 0:
+		return "0"
+	case 1:
+		return "18446744073709551615"
+	case 2:
+		return "18446744073709551616"
+	case 3:
+		return new(big.Int).Lsh(big.NewInt(1), 255).String()
+	case 4, 5:
+		return new(big.Int).Mul(unit, big.NewInt(int64(1+g.r.Intn(5)))).String()
+	default:
+		return fmt.Sprintf("%d", 1+g.r.Intn(1000))
+	}
+}
+func (g *genr) acct() uint64 { return uAccts[g.r.Intn(len(uAccts))] }
+func (g *genr) vid() uint64 {
+	if g.r.Chance(70) {
+		return uint64(1 + g.r.Intn(3))
+	}
+	return uVals[g.r.Intn(len(uVals))]
+}
+
+func (g *genr) newValRec(id uint64) *Val {
+	stake := int64(g.r.Intn(6))
+	tok := new(big.Int).Mul(unit, big.NewInt(stake))
+	tok.Add(tok, big.NewInt(int64(g.r.Intn(3))))
+	switch g.r.Intn(10) {
+	case 0:
+		tok, stake = new(big.Int), 0
+	case 1:
+		tok, stake = new(big.Int).Lsh(big.NewInt(1), 64), 0 // Uint64() == 0
+	}
+	v := state.NewValidator(string([]byte{byte('a' + g.r.Intn(3))}), addrOf(g.acct()), addrOf(g.acct()), params.ValidatorRole(1+g.r.Intn(3)),
+		valKeys[id-1], g.r.Bytes(g.r.Intn(3)), tok, big.NewInt(stake), uint16(g.r.Intn(2)), uint16(g.r.Intn(100)), uint16(g.r.Intn(100)), uint8(g.r.Intn(2)))
+	r := valRec(v)
+	return &r
+}
+
+// mutateVal returns a changed copy of the current record of validator id on handle hd.
+func (g *genr) mutateVal(hd, id uint64) *Val {
+	st := g.e.hs[hd]
+	old := st.GetValidatorByMainAddr(valAddr(id))
+	if old == nil {
+		return g.newValRec(id)
+	}
+	nv := old.DeepCopy()
+	n := 1 + g.r.Intn(3)
+	for i := 0; i < n; i++ {
+		switch g.r.Intn(11) {
+		case 0:
+			nv.Status = 1 - nv.Status
+		case 1:
+			nv.Role = params.ValidatorRole(1 + g.r.Intn(3))
+		case 2:
+			k := big.NewInt(int64(1 + g.r.Intn(3)))
+			nv.Stake.Add(nv.Stake, k)
+			nv.Token.Add(nv.Token, new(big.Int).Mul(k, unit))
+		case 3:
+			nv.Token, nv.Stake = new(big.Int), new(big.Int)
+		case 4:
+			nv.Expelled = !nv.Expelled
+			nv.ExpelExpired = uint64(g.r.Intn(100))
+		case 5:
+			nv.AddTotalRewards(big.NewInt(int64(g.r.Intn(500))))
+			nv.RewardsLastSettled = uint64(g.r.Intn(100))
+		case 6:
+			nv.UpdateLastActive(uint64(1 + g.r.Intn(100000)))
+		case 7:
+			nv.Coinbase = addrOf(g.acct())
+			nv.CommissionRate = uint16(g.r.Intn(10000))
+		case 8:
+			nv.LastInactive = uint64(g.r.Intn(100))
+		default:
+			d := addrOf(uint64(1 + g.r.Intn(3)))
+			k := int64(g.r.Intn(3))
+			nv.UpdateDelegationFrom(&state.DelegationFrom{Delegator: d, Stake: big.NewInt(k), Token: new(big.Int).Mul(unit, big.NewInt(k))})
+		}
+	}
+	r := valRec(nv)
+	return &r
+}
+
+func (g *genr) wrec() []string {
+	u := func(x int) string { return fmt.Sprintf("%d", x) }
+	return []string{u(int(g.acct())), u(int(g.acct())), u(g.r.Intn(9)), u(int(g.acct())), u(g.r.Intn(50)), u(g.r.Intn(100)), u(g.r.Intn(200)),
+		g.amt(), g.amt(), u(g.r.Intn(2)), u(g.r.Intn(1000))}
+}
+
+// write emits one random state-changing call on handle hd.
+func (g *genr) write(hd uint64) {
+	st := g.e.hs[hd]
+	if st == nil {
+		return
+	}
+	a := g.acct()
+	switch k := g.r.Intn(100); {
+	case k < 10:
+		g.do(Op{K: "setbalance", H: hd, A: a, V: g.amt()})
+	case k < 16:
+		g.do(Op{K: "addbalance", H: hd, A: a, V: g.amt()})
+	case k < 22:
+		g.do(Op{K: "setnonce", H: hd, A: a, B: uint64(g.r.Intn(4))})
+	case k < 28:
+		g.do(Op{K: "setcode", H: hd, A: a, Code: g.r.Bytes(g.r.Intn(4))})
+	case k < 42:
+		v := "0"
+		if g.r.Chance(70) {
+			v = g.amt()
+		}
+		g.do(Op{K: "setstate", H: hd, A: a, B: uKeys[g.r.Intn(len(uKeys))], V: v})
+	case k < 45:
+		g.do(Op{K: "suicide", H: hd, A: a})
+	case k < 48:
+		v := "0"
+		if g.r.Bool() {
+			v = g.amt()
+		}
+		g.do(Op{K: "create", H: hd, A: a, V: v})
+	case k < 53:
+		g.do(Op{K: "upddelegator", H: hd, A: a, B: g.vid(), Neg: false, V: fmt.Sprintf("%d", g.r.Intn(50)), Del: g.r.Chance(35)})
+	case k < 61:
+		g.do(Op{K: "delegate", H: hd, A: uint64(1 + g.r.Intn(3)), B: g.vid(), Neg: g.r.Chance(35),
+			V: new(big.Int).Mul(unit, big.NewInt(int64(1+g.r.Intn(2)))).String()})
+	case k < 69:
+		id := g.vid()
+		g.do(Op{K: "createval", H: hd, Val: g.newValRec(id)})
+	case k < 78:
+		id := g.vid()
+		g.do(Op{K: "updateval", H: hd, Val: g.mutateVal(hd, id)})
+	case k < 80:
+		if g.removed[hd] == 0 {
+			g.removed[hd]++
+			g.do(Op{K: "removeval", H: hd, A: g.vid()})
+		}
+	case k < 83:
+		g.do(Op{K: "addrewards", H: hd, A: uint64(g.r.Intn(6)), V: g.amt()})
+	case k < 85:
+		g.do(Op{K: "setresidue", H: hd, A: uint64(g.r.Intn(6)), V: g.amt()})
+	case k < 89:
+		g.do(Op{K: "addwithdraw", H: hd, Rec: g.wrec()})
+	case k < 91:
+		n := len(st.GetWithdrawQueue().Records)
+		var idx []uint64
+		for i := 0; i < n; i++ {
+			if g.r.Chance(40) {
+				idx = append(idx, uint64(i))
+			}
+		}
+		g.do(Op{K: "removewithdraws", H: hd, Idx: idx})
+	case k < 96:
+		o := Op{K: "addsrec", H: hd, A: uDlg[g.r.Intn(len(uDlg))], B: g.vid(), C: uint64(g.r.Intn(4)), Some: g.r.Bool()}
+		if o.Some {
+			o.V = g.amt()
+		}
+		g.do(o)
+	case k < 99:
+		g.do(Op{K: "addprel", H: hd, A: uint64(1 + g.r.Intn(2)), B: g.vid()})
+	default:
+		g.do(Op{K: "resetstk", H: hd})
+	}
+}
+
+func (g *genr) del() bool { return !g.r.Chance(25) }
+
+// commitReopen: Commit, read, reopen from the roots, read again; reopened == live.
+func (g *genr) commitReopen(hd uint64) uint64 {
+	g.do(Op{K: "commit", H: hd, Del: g.del()})
+	i := g.do(Op{K: "view", H: hd})
+	h2 := g.fresh()
+	g.do(Op{K: "reopen", H: hd, H2: h2})
+	j := g.do(Op{K: "view", H: h2})
+	g.expect("eqcontent", i, j, g.origin[hd], "the state reopened from the committed roots differs from the live state")
+	if g.r.Chance(50) {
+		k := g.do(Op{K: "reader", H: hd})
+		g.expect("eqreader", k, i, g.origin[hd], "the validator reader opened from the committed validator root differs from the live state")
+	}
+	return h2
+}
+
+func (g *genr) boundary(hd uint64) string {
+	switch g.r.Intn(8) {
+	case 0:
+		return "midtx"
+	case 1, 2, 3:
+		g.do(Op{K: "finalise", H: hd, Del: g.del()})
+		return "finalised"
+	case 4, 5:
+		g.do(Op{K: "iroot", H: hd, Del: g.del()})
+		return "flushed"
+	default:
+		g.do(Op{K: "commit", H: hd, Del: g.del()})
+		return "committed"
+	}
+}
+
+func (g *genr) prefix(hd uint64, n int) {
+	for i := 0; i < n; i++ {
+		g.write(hd)
+		switch g.r.Intn(14) {
+		case 0:
+			g.do(Op{K: "finalise", H: hd, Del: g.del()})
+		case 1:
+			g.do(Op{K: "iroot", H: hd, Del: g.del()})
+			g.do(Op{K: "view", H: hd})
+		case 2:
+			g.do(Op{K: "listvals", H: hd})
+		}
+	}
+}
+
+// tWalk: random walk over a few handles.
+func (g *genr) tWalk() {
+	live := []uint64{0}
+	steps := 8 + g.r.Heavy(90)
+	for s := 0; s < steps; s++ {
+		hd := live[g.r.Intn(len(live))]
+		switch k := g.r.Intn(100); {
+		case k < 68:
+			g.write(hd)
+		case k < 75:
+			g.do(Op{K: "finalise", H: hd, Del: g.del()})
+		case k < 82:
+			g.do(Op{K: "iroot", H: hd, Del: g.del()})
+			g.do(Op{K: "view", H: hd})
+		case k < 88:
+			h2 := g.commitReopen(hd)
+			if len(live) < 4 {
+				live = append(live, h2)
+			}
+		case k < 92:
+			i := g.do(Op{K: "view", H: hd})
+			h2 := g.fresh()
+			c := g.do(Op{K: "copy", H: hd, H2: h2})
+			j := g.do(Op{K: "view", H: h2})
+			g.expect("eqview", i, j, c, "a copy differs from the original")
+			if len(live) < 4 {
+				live = append(live, h2)
+			}
+		case k < 95:
+			g.do(Op{K: "view", H: hd})
+		case k < 97:
+			g.do(Op{K: "listvals", H: hd})
+		default:
+			g.do(Op{K: "roots", H: hd})
+		}
+	}
+	g.commitReopen(live[g.r.Intn(len(live))])
+}
+
+type cell struct {
+	final Op
+	noise *Op
+}
+
+// tPerm: the same content written in two orders / groupings on two handles.
+func (g *genr) tPerm() {
+	for _, a := range []uint64{1, 2, 3, 4} {
+		g.do(Op{K: "setbalance", H: 0, A: a, V: fmt.Sprintf("%d", 10+a)})
+	}
+	for id := uint64(1); id <= 2; id++ {
+		g.do(Op{K: "createval", H: 0, Val: g.newValRec(id)})
+	}
+	g.prefix(0, g.r.Heavy(20))
+	g.do(Op{K: "commit", H: 0, Del: true})
+	var cells []cell
+	n := 3 + g.r.Heavy(14)
+	used := map[string]bool{}
+	for len(cells) < n {
+		var c cell
+		a := uint64(1 + g.r.Intn(4))
+		var key string
+		switch g.r.Intn(9) {
+		case 0:
+			key = fmt.Sprint("bal", a)
+			c.final = Op{K: "setbalance", A: a, V: fmt.Sprintf("%d", 1+g.r.Intn(1000))}
+			if g.r.Bool() {
+				c.noise = &Op{K: "setbalance", A: a, V: g.amt()}
+			}
+		case 1:
+			key = fmt.Sprint("nonce", a)
+			c.final = Op{K: "setnonce", A: a, B: uint64(1 + g.r.Intn(9))}
+		case 2:
+			key = fmt.Sprint("code", a)
+			c.final = Op{K: "setcode", A: a, Code: g.r.Bytes(1 + g.r.Intn(3))}
+			if g.r.Bool() {
+				c.noise = &Op{K: "setcode", A: a, Code: g.r.Bytes(g.r.Intn(3))}
+			}
+		case 3, 4, 5:
+			k := uKeys[g.r.Intn(len(uKeys))]
+			key = fmt.Sprint("st", a, k)
+			v := "0"
+			if g.r.Chance(75) {
+				v = fmt.Sprintf("%d", 1+g.r.Intn(50))
+			}
+			c.final = Op{K: "setstate", A: a, B: k, V: v}
+			if g.r.Chance(60) {
+				c.noise = &Op{K: "setstate", A: a, B: k, V: fmt.Sprintf("%d", g.r.Intn(3))}
+			}
+		case 6:
+			id := uint64(3 + g.r.Intn(3))
+			key = fmt.Sprint("val", id)
+			c.final = Op{K: "createval", Val: g.newValRec(id)}
+		case 7:
+			id := uint64(1 + g.r.Intn(2))
+			key = fmt.Sprint("val", id)
+			c.final = Op{K: "updateval", Val: g.mutateVal(0, id)}
+		default:
+			d, v := uDlg[g.r.Intn(len(uDlg))], g.vid()
+			key = fmt.Sprint("rec", d, v)
+			c.final = Op{K: "addsrec", A: d, B: v, C: uint64(1 + g.r.Intn(3)), Some: true, V: g.amt()}
+		}
+		if used[key] {
+			continue
+		}
+		used[key] = true
+		cells = append(cells, c)
+	}
+	build := func(hd uint64) {
+		perm := make([]int, len(cells))
+		for i := range perm {
+			perm[i] = i
+		}
+		for i := len(perm) - 1; i > 0; i-- {
+			j := g.r.Intn(i + 1)
+			perm[i], perm[j] = perm[j], perm[i]
+		}
+		flushP := g.r.Intn(40)
+		for _, ci := range perm {
+			c := cells[ci]
+			if c.noise != nil {
+				o := *c.noise
+				o.H = hd
+				g.do(o)
+				if g.r.Chance(flushP) {
+					g.do(Op{K: "finalise", H: hd, Del: true})
+				}
+				if g.r.Chance(flushP / 2) {
+					g.do(Op{K: "iroot", H: hd, Del: true})
+				}
+			}
+			o := c.final
+			o.H = hd
+			g.do(o)
+			if g.r.Chance(flushP) {
+				g.do(Op{K: "finalise", H: hd, Del: true})
+			}
+			if g.r.Chance(flushP / 2) {
+				g.do(Op{K: "iroot", H: hd, Del: true})
+			}
+		}
+		if g.r.Bool() {
+			g.do(Op{K: "iroot", H: hd, Del: true})
+		} else {
+			g.do(Op{K: "commit", H: hd, Del: true})
+		}
+		g.do(Op{K: "view", H: hd})
+	}
+	k := 2 + g.r.Intn(2)
+	for i := 0; i < k; i++ {
+		hd := g.fresh()
+		g.do(Op{K: "reopen", H: 0, H2: hd})
+		build(hd)
+	}
+}
+
+// tCopy: copy at a chosen point, same suffix on both, commit both, reopen both.
+func (g *genr) tCopy() {
+	g.prefix(0, 4+g.r.Heavy(40))
+	b := g.boundary(0)
+	g.res.Count("copy_at_" + b)
+	if g.r.Chance(40) {
+		for i := 0; i < 1+g.r.Intn(4); i++ {
+			g.write(0)
+		}
+		if g.r.Chance(70) {
+			g.do(Op{K: "finalise", H: 0, Del: g.del()})
+		}
+	}
+	i0 := g.do(Op{K: "view", H: 0})
+	c := g.fresh()
+	ci := g.do(Op{K: "copy", H: 0, H2: c})
+	i1 := g.do(Op{K: "view", H: c})
+	i2 := g.do(Op{K: "view", H: 0})
+	g.expect("eqview", i0, i1, ci, "a copy differs from the original")
+	g.expect("eqview", i0, i2, -1, "copying changed the original")
+	// the same suffix on both
+	start := len(g.h.Ops)
+	n := g.r.Heavy(16)
+	for i := 0; i < n; i++ {
+		g.write(0)
+		if g.r.Chance(10) {
+			g.do(Op{K: "finalise", H: 0, Del: true})
+		}
+	}
+	suffix := append([]Op{}, g.h.Ops[start:]...)
+	for _, o := range suffix {
+		o.H = c
+		if o.K == "delegate" {
+			o.Val, o.Some = nil, false
+		}
+		g.do(o)
+	}
+	de := g.del()
+	r0 := g.do(Op{K: "commit", H: 0, Del: de})
+	v0 := g.do(Op{K: "view", H: 0})
+	r1 := g.do(Op{K: "commit", H: c, Del: de})
+	v1 := g.do(Op{K: "view", H: c})
+	g.expect("eqroots", r0, r1, ci, "a copy and its original, after the same calls, commit to different roots")
+	g.expect("eqview", v0, v1, ci, "a copy and its original differ after the same calls")
+	for _, hd := range []uint64{0, c} {
+		h2 := g.fresh()
+		g.do(Op{K: "reopen", H: hd, H2: h2})
+		j := g.do(Op{K: "view", H: h2})
+		vi := v0
+		if hd == c {
+			vi = v1
+		}
+		g.expect("eqcontent", vi, j, g.origin[hd], "the state reopened from the committed roots differs from the live state")
+	}
+}
+
+// tIndep: writes to one side of a copy do not show on the other side.
+func (g *genr) tIndep() {
+	g.prefix(0, 4+g.r.Heavy(30))
+	g.boundary(0)
+	c := g.fresh()
+	g.do(Op{K: "copy", H: 0, H2: c})
+	a, b := uint64(0), c
+	if g.r.Bool() {
+		a, b = c, 0
+	}
+	i0 := g.do(Op{K: "view", H: a})
+	n := 2 + g.r.Heavy(20)
+	for i := 0; i < n; i++ {
+		g.write(b)
+		switch g.r.Intn(10) {
+		case 0:
+			g.do(Op{K: "finalise", H: b, Del: g.del()})
+		case 1:
+			g.do(Op{K: "iroot", H: b, Del: g.del()})
+		case 2:
+			g.do(Op{K: "commit", H: b, Del: g.del()})
+		}
+	}
+	i1 := g.do(Op{K: "view", H: a})
+	g.expect("eqview", i0, i1, -1, "writes to one side of a copy show on the other side")
+	g.commitReopen(a)
+}
+
+func genHistory(r *vf.Rng, res *vf.Result) *History {
+	g := newGen(r, res)
+	switch k := r.Intn(100); {
+	case k < 35:
+		g.h.Comment = "walk"
+		g.tWalk()
+	case k < 60:
+		g.h.Comment = "perm"
+		g.tPerm()
+	case k < 85:
+		g.h.Comment = "copy"
+		g.tCopy()
+	default:
+		g.h.Comment = "indep"
+		g.tIndep()
+	}
+	res.Count("template_" + g.h.Comment)
+	return g.h
+}
+
+// ---- main ------------------------------------------------------------------------------------
+
+func repoDir() string {
+	if d := os.Getenv("VERIF_REPO"); d != "" {
+		return d
+	}
+	return "/repo"
+}
+
+func caseLines(f flags, h *History, outs [][]Obs) string {
+	var ops, os_ []string
+	for i, o := range h.Ops {
+		if o.K == "delegate" {
+			if !o.Some {
+				continue
+			}
+			ops = append(ops, fmt.Sprintf("MS %d (OUpdateVal %s)", o.H, valCoq(o.Val)),
+				fmt.Sprintf("MS %d (OUpdDelegator %d %d %s %s %s)", o.H, o.A, o.B, vf.Bool(o.Neg), bstr(o.V), vf.Bool(o.Del)))
+		} else {
+			ops = append(ops, mopCoq(o))
+		}
+		for _, x := range outs[i] {
+			os_ = append(os_, x.Coq())
+		}
+	}
+	return fmt.Sprintf("mkCase (mkCF %s %s) U\n [%s]\n [%s]", vf.Bool(f.KeepDlgs), vf.Bool(f.DirtyAlways), strings.Join(ops, ";\n  "), strings.Join(os_, ";\n  "))
+}
+
+func loadCorpus(dir string) []*History {
+	var out []*History
+	files, _ := filepath.Glob(filepath.Join(dir, "*.json"))
+	sort.Strings(files)
+	for _, f := range files {
+		b, err := ioutil.ReadFile(f)
+		if err != nil {
+			continue
+		}
+		var h History
+		if json.Unmarshal(b, &h) == nil && len(h.Ops) > 0 {
+			h.Comment = "corpus:" + filepath.Base(f)
+			out = append(out, &h)
+		}
+	}
+	return out
+}
+
+func sameOuts(a, b [][]Obs) bool {
+	if len(a) != len(b) {
+		return false
+	}
+	for i := range a {
+		if len(a[i]) != len(b[i]) {
+			return false
+		}
+		for j := range a[i] {
+			if a[i][j].String() != b[i][j].String() {
+				return false
+			}
+		}
+	}
+	return true
+}
+
+func gen(seed uint64, n int, outDir, corpusDir string) {
+	r := vf.NewRng(seed)
+	res := vf.NewResult("C10", seed)
+	fl := copyFlags(repoDir())
+	res.Extra["copy_flags"] = fl
+	var sb strings.Builder
+	sb.WriteString("From VF.C10 Require Import Model.\nLocal Open Scope N_scope.\nDefinition U := " + universeCoq() + ".\nDefinition cases : list case := [\n")
+	distinct := map[string]bool{}
+	hitKeys := map[string]bool{}
+	count := 0
+	emit := func(h *History) {
+		rr := runHistory(h)
+		rr2 := runHistory(h)
+		if !sameOuts(rr.outs, rr2.outs) {
+			rr.hits = append(rr.hits, hit{"two runs of the same history show different results", "outputs differ between two executions", h})
+		}
+		if count > 0 {
+			sb.WriteString(";\n")
+		}
+		line := caseLines(fl, h, rr.outs)
+		sb.WriteString(line)
+		count++
+		flushes, structural := 0, 0
+		for _, o := range h.Ops {
+			switch o.K {
+			case "iroot", "commit":
+				flushes++
+			case "copy", "reopen":
+				structural++
+			}
+		}
+		if flushes > 0 && structural > 0 {
+			distinct[line] = true
+		}
+		for k, v := range rr.checked {
+			res.Distribution["checked_"+k] += v
+		}
+		res.Distribution["skipped_copy_inside_transaction"] += rr.skipped
+		for _, ht := range rr.hits {
+			res.Count("hit")
+			if !hitKeys[ht.What] || len(res.OracleHits) < 4 {
+				res.OracleHits = append(res.OracleHits, ht)
+			}
+			hitKeys[ht.What] = true
+		}
+		res.CaseDescs = append(res.CaseDescs, h)
+		if len(res.Samples) < 4 && len(h.Ops) < 40 {
+			res.Samples = append(res.Samples, h)
+		}
+	}
+	for _, h := range loadCorpus(corpusDir) {
+		emit(h)
+		res.Count("corpus")
+	}
+	for count < n {
+		emit(genHistory(r, res))
+	}
+	sb.WriteString("].\nDefinition M := Eval vm_compute in mismatches cases.\nPrint M.\n")
+	vf.WriteFile(filepath.Join(outDir, "Cases.v"), sb.String())
+	res.Cases = count
+	res.Distinct = len(distinct)
+	res.Rule = "a case is one history over several StateDB handles sharing a database: random writes (accounts, storage, code, delegation lists, validators, statistics, withdraw queue, staking records, pending relationships) with Finalise/IntermediateRoot/Commit at random points and both deleteEmptyObjects flags; templates: random walk, the same cell writes permuted and regrouped on handles reopened from one commit, copy at a chosen point (inside a transaction, after Finalise, after IntermediateRoot, after Commit) followed by the same suffix on both sides, writes to one side of a copy; every call's result (root numbers, full reads of all observed addresses) is compared with the model; non-trivial = has a flush and a copy or reopen; distinct by full history"
+	res.Write(filepath.Join(outDir, "result.json"))
+}
+
+func replay(file string) {
+	b, err := ioutil.ReadFile(file)
+	if err != nil {
+		fmt.Println(err)
+		os.Exit(2)
+	}
+	var rp struct {
+		History *History `json:"history"`
+		Ops     []Op     `json:"ops"`
+		Asserts []Assert `json:"asserts"`
+	}
+	if err := json.Unmarshal(b, &rp); err != nil {
+		fmt.Println(err)
+		os.Exit(2)
+	}
+	h := rp.History
+	if h == nil {
+		h = &History{Ops: rp.Ops, Asserts: rp.Asserts}
+	}
+	rr := runHistory(h)
+	for i, o := range h.Ops {
+		for _, x := range rr.outs[i] {
+			s := x.String()
+			if len(s) > 300 {
+				s = s[:300] + "..."
+			}
+			fmt.Printf("%3d %-14s h=%d -> %s\n", i, o.K, o.H, s)
+		}
+	}
+	if len(rr.hits) > 0 {
+		for _, ht := range rr.hits {
+			fmt.Println("ORACLE VIOLATION:", ht.What, "--", ht.Detail)
+		}
+		os.Exit(1)
+	}
+	fmt.Println("no violation")
+}
+
+func main() {
+	mode := ""
+	if len(os.Args) > 1 {
+		mode = os.Args[1]
+		os.Args = append(os.Args[:1], os.Args[2:]...)
+	}
+	seed := flag.Uint64("seed", 1, "")
+	n := flag.Int("n", 100, "")
+	out := flag.String("out", ".", "")
+	corpus := flag.String("corpus", "/verif/corpus/C10", "")
+	file := flag.String("file", "", "")
+	flag.Parse()
+	params.InitNetworkId(params.NetworkIdForTestCase)
+	logging.Root().SetHandler(logging.DiscardHandler())
+	initValidators()
+	switch mode {
+	case "gen":
+		gen(*seed, *n, *out, *corpus)
+	case "replay":
+		replay(*file)
+	case "copytable":
+		copyTable(repoDir(), *out)
+	default:
+		fmt.Println("usage: c10 gen|replay|copytable")
+		os.Exit(2)
+	}
 }
